@@ -92,6 +92,44 @@ pub fn sqlite_open(path: &std::path::Path) -> MdkSqliteStorage {
     MdkSqliteStorage::new_unencrypted(path).expect("open sqlite scratch db")
 }
 
+/// Fill a freshly created database with every row of the database file `src` (same schema).
+pub fn sqlite_copy_rows(dst: &MdkSqliteStorage, src: &std::path::Path) {
+    dst.verif_with_connection(|conn| {
+        let src_s = src.to_string_lossy().replace('\'', "''");
+        conn.execute_batch(&format!("ATTACH DATABASE '{src_s}' AS src;")).expect("attach");
+        let tables: Vec<String> = {
+            let mut st = conn.prepare("SELECT name FROM src.sqlite_master WHERE type='table' AND name NOT LIKE 'sqlite_%' AND name NOT LIKE 'refinery%' ORDER BY name").unwrap();
+            st.query_map([], |r| r.get::<_, String>(0)).unwrap().filter_map(|x| x.ok()).collect()
+        };
+        // parents first: every foreign key of the schema points at `groups`
+        let mut tables = tables;
+        tables.sort_by_key(|t| (t != "groups", t.clone()));
+        let mut sql = String::from("BEGIN;");
+        for t in &tables {
+            sql.push_str(&format!("DELETE FROM main.{t};"));
+        }
+        // parents before children is not needed with deferred foreign keys
+        for t in &tables {
+            sql.push_str(&format!("INSERT INTO main.{t} SELECT * FROM src.{t};"));
+        }
+        sql.push_str("DELETE FROM main.sqlite_sequence; INSERT INTO main.sqlite_sequence SELECT * FROM src.sqlite_sequence;");
+        if std::env::var("VERIF_DEBUG").is_ok() {
+            let _ = conn.execute_batch(&sql);
+            let mut st = conn.prepare("PRAGMA main.foreign_key_check").unwrap();
+            let rows: Vec<String> = st.query_map([], |r| Ok(format!("{:?} {:?} {:?}", r.get::<_, String>(0), r.get::<_, Option<i64>>(1), r.get::<_, String>(2)))).unwrap().filter_map(|x| x.ok()).collect();
+            eprintln!("fk_check before commit: {rows:?}");
+            let _ = conn.execute_batch("ROLLBACK;");
+        }
+        sql.push_str("COMMIT;");
+        if let Err(e) = conn.execute_batch(&sql) {
+            let mut st = conn.prepare("PRAGMA foreign_key_check").unwrap();
+            let rows: Vec<String> = st.query_map([], |r| Ok(format!("{:?} {:?} {:?}", r.get::<_, String>(0), r.get::<_, Option<i64>>(1), r.get::<_, String>(2)))).unwrap().filter_map(|x| x.ok()).collect();
+            panic!("copy rows: {e} fk_check={rows:?}");
+        }
+        conn.execute_batch("DETACH DATABASE src;").expect("detach");
+    });
+}
+
 pub fn sqlite_dump(s: &MdkSqliteStorage) -> Vec<String> {
     s.verif_with_connection(|conn| {
         let mut out = Vec::new();
@@ -161,6 +199,9 @@ pub struct Client {
     pub name: String,
     pub keys: Keys,
     pub mdk: Mdk,
+    /// SQLite only: this client's connection was opened on an already existing database file
+    /// (it has been restarted at least once); forks keep that kind of connection
+    pub reopened: bool,
 }
 
 #[derive(Debug, Clone, Serialize, Deserialize, PartialEq, Eq)]
@@ -216,7 +257,7 @@ impl Client {
                 )
             }
         };
-        Client { name: name.to_string(), keys, mdk }
+        Client { name: name.to_string(), keys, mdk, reopened: false }
     }
 
     pub fn backend(&self) -> Bk {
@@ -238,13 +279,23 @@ impl Client {
                 Mdk::Mem(m.verif_fork(st))
             }
             Mdk::Sql(m, file) => {
+                // A fork stands for "the same process goes on": the copy gets a database that was created by
+                // this process (constructor on a new file, migrations applied) and is then filled with the
+                // source's rows, so connection-level state is that of a never-reopened database. Only
+                // `restart()` reopens an existing file.
                 let path = scratch_file(&self.name);
-                std::fs::copy(&file.path, &path).expect("copy sqlite file");
-                let st = sqlite_open(&path);
+                let st = if self.reopened {
+                    std::fs::copy(&file.path, &path).expect("copy sqlite file");
+                    sqlite_open(&path)
+                } else {
+                    let st = sqlite_open(&path);
+                    sqlite_copy_rows(&st, &file.path);
+                    st
+                };
                 Mdk::Sql(m.verif_fork(st), std::sync::Arc::new(SqlStoreFile { path }))
             }
         };
-        Client { name: self.name.clone(), keys: self.keys.clone(), mdk }
+        Client { name: self.name.clone(), keys: self.keys.clone(), mdk, reopened: self.reopened }
     }
 
     /// Process restart: same durable medium, fresh MDK (snapshot manager rebuilt by the code itself).
@@ -261,6 +312,7 @@ impl Client {
                     name: self.name.clone(),
                     keys: self.keys.clone(),
                     mdk: Mdk::Sql(mdk, std::sync::Arc::new(SqlStoreFile { path })),
+                    reopened: true,
                 }
             }
         }
